@@ -2,50 +2,194 @@ package spec
 
 import (
 	"go/ast"
+	"go/token"
 	"go/types"
 
 	"lndlint/internal/an"
 )
 
+// c10LoopScope describes one loop body for the aliasing rule.
+type c10LoopScope struct {
+	f    *an.Func
+	info *types.Info
+	body *ast.BlockStmt
+}
+
+// outside: obj is declared outside the loop body (so it is the same storage
+// in every iteration).
+func (s c10LoopScope) outside(obj types.Object) bool {
+	return obj != nil && !(obj.Pos() >= s.body.Pos() && obj.Pos() <= s.body.End())
+}
+
+// assignedInLoop: the variable as a whole is given a new value inside the
+// loop body (`buf = make(...)`, `buf := ...` cannot be: that would declare it
+// inside).
+func (s c10LoopScope) assignedInLoop(obj types.Object) bool {
+	found := false
+	ast.Inspect(s.body, func(n ast.Node) bool {
+		if as, ok := n.(*ast.AssignStmt); ok {
+			for _, l := range as.Lhs {
+				if id, ok := ast.Unparen(l).(*ast.Ident); ok && s.info.Uses[id] == obj {
+					found = true
+				}
+			}
+		}
+		return !found
+	})
+	return found
+}
+
+// filledInLoop: the loop body hands the buffer (or a slice of it) to a call,
+// or assigns to its elements: its contents change from one iteration to the
+// next.
+func (s c10LoopScope) filledInLoop(obj types.Object) bool {
+	rooted := func(e ast.Expr) bool {
+		for {
+			switch x := ast.Unparen(e).(type) {
+			case *ast.SliceExpr:
+				e = x.X
+			case *ast.IndexExpr:
+				e = x.X
+			case *ast.StarExpr:
+				e = x.X
+			case *ast.UnaryExpr:
+				if x.Op != token.AND {
+					return false
+				}
+				e = x.X
+			case *ast.Ident:
+				return s.info.Uses[x] == obj
+			default:
+				return false
+			}
+		}
+	}
+	found := false
+	ast.Inspect(s.body, func(n ast.Node) bool {
+		switch x := n.(type) {
+		case *ast.CallExpr:
+			if tv, ok := s.info.Types[x.Fun]; ok && tv.IsType() {
+				return true // a conversion
+			}
+			switch an.CalleeID(s.info, x) {
+			case "builtin.len", "builtin.cap", "builtin.append":
+				return true
+			}
+			for _, a := range x.Args {
+				if rooted(a) {
+					found = true
+				}
+			}
+		case *ast.AssignStmt:
+			for _, l := range x.Lhs {
+				if ix, ok := ast.Unparen(l).(*ast.IndexExpr); ok && rooted(ix.X) {
+					found = true
+				}
+			}
+		}
+		return !found
+	})
+	return found
+}
+
+// sharedBuffer decides whether the value of e shares its backing array with
+// storage that outlives the iteration: a slice of an array (or of a pointer
+// to an array, or of a slice) declared outside the loop, a slice variable
+// declared outside the loop that the loop fills and never re-allocates, a
+// conversion of either, or a local of the loop defined as one of these.  It
+// returns the name of the buffer, "" when e is fresh.
+func (s c10LoopScope) sharedBuffer(e ast.Expr, depth int) string {
+	if depth > 4 || e == nil {
+		return ""
+	}
+	e = ast.Unparen(e)
+	switch x := e.(type) {
+	case *ast.CallExpr:
+		// a conversion keeps the backing array
+		if tv, ok := s.info.Types[x.Fun]; ok && tv.IsType() && len(x.Args) == 1 {
+			return s.sharedBuffer(x.Args[0], depth+1)
+		}
+		return ""
+	case *ast.SliceExpr:
+		base := ast.Unparen(x.X)
+		if u, ok := base.(*ast.UnaryExpr); ok && u.Op == token.AND {
+			base = ast.Unparen(u.X)
+		}
+		if st, ok := base.(*ast.StarExpr); ok {
+			base = ast.Unparen(st.X)
+		}
+		id, ok := base.(*ast.Ident)
+		if !ok {
+			return ""
+		}
+		obj, _ := s.info.Uses[id].(*types.Var)
+		if obj == nil {
+			return ""
+		}
+		switch t := obj.Type().Underlying().(type) {
+		case *types.Array:
+			if s.outside(obj) {
+				return id.Name
+			}
+		case *types.Pointer:
+			if _, isArr := t.Elem().Underlying().(*types.Array); isArr && s.outside(obj) && !s.assignedInLoop(obj) {
+				return id.Name
+			}
+		case *types.Slice:
+			return s.sharedBuffer(id, depth+1)
+		}
+		return ""
+	case *ast.Ident:
+		obj, _ := s.info.Uses[x].(*types.Var)
+		if obj == nil || obj.IsField() {
+			return ""
+		}
+		if _, isSlice := obj.Type().Underlying().(*types.Slice); !isSlice {
+			return ""
+		}
+		if s.outside(obj) {
+			if !s.assignedInLoop(obj) && s.filledInLoop(obj) {
+				return x.Name
+			}
+			return ""
+		}
+		// a local of the loop: follow its definition
+		if d := s.f.UniqueDef(x); d != nil {
+			return s.sharedBuffer(d, depth+1)
+		}
+		return ""
+	}
+	return ""
+}
+
 // runC10alias: decoded list elements must not share one read buffer.
 func runC10alias(r *an.Run) {
 	p := r.Prog
 	r.Obl("decoded-elements-do-not-alias", "BOUND",
-		"in the wire packages no loop stores a slice of an array declared outside the loop into a value that outlives the iteration (a composite literal field, an element appended as such, a field or element assignment); passing such a slice to a call (reading into it, hashing it, copying from it with `...`) is fine",
+		"in the wire packages (lnwire and tlv) no loop stores a value that shares its backing array with a buffer declared outside the loop (a slice of an array, of a pointer to an array or of a slice declared outside the loop; a slice variable declared outside the loop that the loop fills and does not re-allocate; a conversion of one of these; a local of the loop defined as one of these) into a value that outlives the iteration (a composite literal field or element, an element appended as such, a field or element assignment), also when the store sits in a function literal inside the loop; passing such a slice to a call (reading into it, hashing it, copying from it with `...`) is fine",
 		"every element built that way points at the same bytes: after decoding a list all entries equal the last one, so the decoded message differs from the one sent and does not re-encode to the input", 1,
 		func(o *an.Obl) {
-			loops, flagged := 0, 0
-			for _, f := range p.Funcs(false, "lnwire") {
+			perPkg := map[string]int{}
+			flagged := 0
+			for _, f := range p.Funcs(false, "lnwire", "tlv") {
+				if f.Lit != nil {
+					continue // literals are visited with their root function
+				}
 				info := f.Info()
-				var visitLoop func(body *ast.BlockStmt)
-				visitLoop = func(body *ast.BlockStmt) {
-					loops++
-					outer := func(id *ast.Ident) bool {
-						obj := info.Uses[id]
-						if obj == nil {
-							return false
-						}
-						if _, isArr := obj.Type().Underlying().(*types.Array); !isArr {
-							return false
-						}
-						return !(obj.Pos() >= body.Pos() && obj.Pos() <= body.End())
-					}
+				pkg := an.Short(f.Pkg.PkgPath)
+				visitLoop := func(body *ast.BlockStmt) {
+					perPkg[pkg]++
+					sc := c10LoopScope{f: f, info: info, body: body}
 					retained := func(e ast.Expr, how string) {
-						se, ok := ast.Unparen(e).(*ast.SliceExpr)
-						if !ok {
-							return
-						}
-						id, ok := ast.Unparen(se.X).(*ast.Ident)
-						if !ok || !outer(id) {
+						name := sc.sharedBuffer(e, 0)
+						if name == "" {
 							return
 						}
 						flagged++
-						o.FailAt(f.ID+"#aliased-"+id.Name, f.Where(e.Pos()), "%s keeps %s, a slice of the array %s that is declared outside the loop and overwritten by the next iteration (%s)", f.ID, an.Text(e), id.Name, how)
+						o.FailAt(f.ID+"#aliased-"+name, f.Where(e.Pos()), "%s keeps %s, which shares the bytes of %s: that buffer is declared outside the loop and overwritten by the next iteration (%s)", f.ID, an.Text(e), name, how)
 					}
 					ast.Inspect(body, func(n ast.Node) bool {
 						switch x := n.(type) {
-						case *ast.FuncLit:
-							return false
 						case *ast.KeyValueExpr:
 							retained(x.Value, "composite literal field "+an.Text(x.Key))
 						case *ast.CompositeLit:
@@ -76,8 +220,6 @@ func runC10alias(r *an.Run) {
 				}
 				ast.Inspect(f.Body, func(n ast.Node) bool {
 					switch x := n.(type) {
-					case *ast.FuncLit:
-						return false
 					case *ast.ForStmt:
 						visitLoop(x.Body)
 					case *ast.RangeStmt:
@@ -86,9 +228,12 @@ func runC10alias(r *an.Run) {
 					return true
 				})
 			}
-			o.Site("lnwire: %d loops inspected, %d retained slices of loop-external arrays", loops, flagged)
-			if loops < 40 {
-				o.FailAt("lnwire#loops", "", "expected at least 40 loops in lnwire, found %d", loops)
+			o.Site("loops inspected: lnwire %d, tlv %d; %d retained values sharing a loop-external buffer", perPkg["lnwire"], perPkg["tlv"], flagged)
+			if perPkg["lnwire"] < 40 {
+				o.FailAt("lnwire#loops", "", "expected at least 40 loops in lnwire, found %d", perPkg["lnwire"])
+			}
+			if perPkg["tlv"] < 5 {
+				o.FailAt("tlv#loops", "", "expected at least 5 loops in tlv, found %d", perPkg["tlv"])
 			}
 		})
 }
